@@ -59,7 +59,7 @@ def pick_corpus(ctx):
         heavy = []
         for pat in STD_HEAVY:
             heavy += sorted(os.path.relpath(p, root) for p in glob.glob(os.path.join(root, pat)))
-        extra = r.sample(heavy, min(45, len(heavy))) + r.sample(allf, 30)
+        extra = r.sample(heavy, min(32, len(heavy))) + r.sample(allf, 22)
     for f in extra:
         if f not in chosen and _usable(os.path.join(root, f)):
             chosen.append(f)
@@ -241,7 +241,7 @@ def judge_controls(ctx, controls, rows):
         got = by_art.get(CONTROL_BASE + k, set())
         if inv not in got:
             raise ToolError(f"negative control {nm}: the specification did not report {inv} (got {sorted(got)})")
-    ctx.extra["negative_controls"] = [nm for nm, _, _ in controls]
+    ctx.extra["negative_control_names"] = [nm for nm, _, _ in controls]
 
 
 def strict_rejects(ctx, arts):
